@@ -54,7 +54,9 @@ def run(ctx):
     from wavespectra.core.utils import celerity
     jobs = []
     for mode in ("ptm4", "bbox", "band", "ptm5"):
-        for d in (1, 2, 3, 4):
+        for d in (1, 2, 3, 4, 5):
+            if d == 5 and mode not in ("bbox", "band"):
+                continue        # the grid with north labelled 360 matters where labels are compared with limits
             if ctx.quick:
                 jobs.append((mode, (0, 2, 5), (d,), 1 if mode == "ptm5" else 2))
             else:
